@@ -2,24 +2,32 @@
 from vlib import core, cases, exportcheck as xc
 
 LEVEL = "proof"
-PROPS = ["MV/Props/C07.lean"]
+PROPS = ["MV/Props/C07.lean", "MV/Props/C07b.lean"]
 ASSUMPTIONS = [
     "theorems (runs_partition, runs_sorted, increment_bijective_monotone, increment_preserves_runLE, offsetQ_disjoint, compose_offsets_disjoint) are about "
     "MV/Model/Export.lean + MV/Model/MeshIds.lean; tied to GetMeshGLImpl (src/impl.h) by dumping triRef / meshIDtransform / halfedges of the real Impl after random API programs "
     "and requiring `mvdriver export all` to reproduce runIndex, runOriginalID, runFlags, runTransform (bit patterns), faceID, triVerts, per-vertex payload hashes, mergeFromVert, mergeToVert, tangent order exactly",
     "IncrementMeshIDs / UpdateReference(offsetQ) / Compose offsets are modelled and proved, but tied to the C++ only through their effect on the dumped relation tables "
     "(consistent, ascending keys, every instance its own run) and through the geometric oracle - there is no step-by-step replay of those three functions",
+    "interpolation half (C07b): theorems of MV/Props/C07b.lean are about MV/Model/PropInterp.lean (getBarycentric = GetBarycentric of src/shared.h; baryTri / cornerKey / interpRow / cornerStep / createProperties = "
+    "Barycentric + CreateProperties of src/boolean_result.cpp). The arithmetic ones (sum to one except when all three edge tests fire, vertex / edge snapping, affine fields interpolated exactly, retained corner = source row) "
+    "hold at an exact ordered field, NOT for rounded doubles; the combinatorial ones (same property vertex iff same key, every row = interpRow of the first corner with the key, zero fill) hold for every Scalar incl. Float. "
+    "Tie: the same definitions run at Float must reproduce, bit for bit, GetBarycentric called directly and, through the add-only hook verif::hooks().onCreateProps, every CreateProperties call of small random Booleans "
+    "(sizes of the two propMissIdx tables, property index per corner, barycentric table, every property row)",
+    "the interior-case key of CreateProperties is (PQ, output vertex) without the source triangle: two corners at one output vertex that are interior to two different source triangles of one operand share the row "
+    "interpolated in the first triangle (theorem key_eq_meaning states exactly this); the harness counts such merges on the real code (STATS sharedInteriorAcrossSourceTris, 0 in all runs so far) and its oracle "
+    "compares every corner with ITS OWN source triangle's interpolation",
     "the geometric clauses (triangle within 10*tolerance of the plane of the transformed source face, orientation incl. back-side and mirrored runs, property = interpolated source field "
     "within 1e-9 relative + |grad|*20*tolerance where affine, exactly 0 for channels the source lacks, inside the source triangle when it has its own face ID) are a long-double oracle on the real output, not theorems; "
     "SplitByPlane's cutter is taken to be the library's Halfspace cube (Cube(2, centred))",
     "properties are checked only where the property statement applies: source triangles with their own face ID, or channels constructed affine in position; "
-    "that SwapEdge/CollapseEdge2 blending keeps values within tolerance is covered by the oracle only",
+    "that the property paths of SwapEdge / CollapseEdge / CollapseEdge2 (edge_op.cpp) keep values within tolerance is covered by the end-to-end oracle only (not modelled)",
 ]
 
 
 def run(ctx):
     cov = core.proof_gate(ctx.pid, PROPS, ["MV.Props.C07"] if ctx.tier == "thorough" else None)
-    cov["checker_cmd"] = "cd lean && lake build MV mvdriver && lake env lean <#print axioms for every theorem of MV/Props/C07.lean>"
+    cov["checker_cmd"] = "cd lean && lake build MV mvdriver && lake env lean <#print axioms for every theorem of MV/Props/C07.lean and MV/Props/C07b.lean>"
     cov["trusted_base"] = core.TRUSTED_BASE + ["`#define private public` access to Manifold::GetCsgLeafNode() in harness/progs.h"]
     cs, stats = xc.build_and_run(ctx, "c07_export", 1500 if ctx.tier == "quick" else 12000)
     cov["checkmerge_verdicts"] = xc.checkmerge(ctx, cs)
@@ -34,4 +42,42 @@ def run(ctx):
                    "instances under rotation / mirror / non-uniform scale / translation; 1-5 steps of Boolean x3, Split, SplitByPlane, BatchBoolean x3, Compose of disjoint copies, Refine(2-3), AsOriginal, transform; "
                    "non-trivial = non-empty result; distinct = distinct request lines")
     cov["samples"] = [{"case": core.clip(c["tag"], 200), "request": core.clip(c["req"], 200), "answer": core.clip(c["exp"], 120)} for c in ex[1:4]]
+    cov["interpolation"] = interpolation(ctx)
     return cov
+
+
+def interpolation(ctx):
+    """C07b: GetBarycentric called directly and CreateProperties observed through verif::hooks().onCreateProps
+    (harness/c07_props.cpp) against MV/Model/PropInterp.lean run at Float: every answer bit for bit; the
+    long-double oracles of the harness judge the real outputs."""
+    import os
+    from vlib import libs
+    hook = os.path.join(core.REPO, "src", "verif_hooks.h")
+    if "onCreateProps" not in open(hook).read():
+        raise core.BuildBroken("src/verif_hooks.h has no onCreateProps hook: the tree lacks the patch `verif hook: onCreateProps`")
+    libs.build("ser")
+    exe = core.compile_harness("c07_props", [os.path.join(core.ROOT, "harness", "c07_props.cpp")],
+                               libs.cxx_flags("ser") + ["-Wno-deprecated-declarations"], libs=libs.link_flags("ser"))
+    na, nb = (6000, 90) if ctx.tier == "quick" else (60000, 800)
+    cs, stats = cases.run_case_harness(ctx, exe, [na, nb])
+    for c in cs:
+        c["harness"] = "c07_props"
+        c["replay_cmd"] = "VERIF_SEED=%d %s %d %d   # case %s" % (ctx.seed, exe, na, nb, c["tag"].split()[0])
+    xc.report_findings(ctx, cs, "C07b oracle on the real GetBarycentric / CreateProperties outputs")
+    cov = cases.correspond(ctx, cs, "GetBarycentric / CreateProperties vs MV.PropInterp at Float (bit patterns)",
+                           search=interp_search, kind_of=xc.kind)
+    cov["generator"] = stats
+    cov["rule"] = ("A: GetBarycentric on triangles at scales 1e-6..1e6 with tolerance 1e-12..1e-3 of the scale: random points near the plane, points at "
+                   "0/0.3/0.9/0.999999/1/1.000001/1.1/2/10 tolerances from a vertex or an edge line, point-sized / duplicated-vertex / collinear / zero triangles, "
+                   "tolerance-sized triangles (several edge tests fire, incl. all three: 0/0), exact axis-aligned grids, the vertices themselves, tolerance 0 / negative / huge, inf and NaN coordinates; "
+                   "B: 1-2 Booleans per program over primitives as bare meshes or user meshes with 0-4 channels, full or partial property seams with merge vectors, own face IDs, "
+                   "optional CalculateNormals (subtracted operands with normals), the first result re-used as P or Q of a second Boolean; non-trivial = every case; distinct = distinct request lines")
+    cov["samples"] = [{"case": core.clip(c["tag"], 200), "request": core.clip(c["req"], 200), "answer": core.clip(c["exp"], 120)} for c in cs[:2] + cs[-1:]]
+    return cov
+
+
+def interp_search(ctx, c):
+    """model != implementation: look for a corner of the dumped call whose REAL row is not the interpolation of its own
+    source triangle - the harness oracle already judged every case, so a failing input would have been reported by
+    report_findings before; here the disagreement itself is the evidence."""
+    return None
